@@ -17,7 +17,34 @@ from .kani_backend import KFailure
 CACHE = os.environ.get('VERIF_CACHE', '/var/tmp/parol-verif-cache')
 
 
+def build_native_from_kani_template(u, work):
+    """the crate is generated from a Kani unit's template (verbatim files of /repo + appended harness modules) and
+    compiled natively with a cargo feature: the SAME assembled text the Kani harnesses run on"""
+    import json
+    from .kani_backend import build_crate
+    kdir = os.path.normpath(os.path.join(u['dir'], '..', u['kani_template']))
+    ku = json.load(open(os.path.join(kdir, 'unit.json')))
+    ku['dir'] = kdir
+    cdir, info = build_crate(ku, os.path.join(work, u['name'] + '_tpl'))
+    # the entry point exists only in the native build (cargo kani would trip over a feature-gated bin target)
+    os.makedirs(os.path.join(cdir, 'src', 'bin'), exist_ok=True)
+    shutil.copy(os.path.join(kdir, 'native_bin_%s.rs' % u['bin']), os.path.join(cdir, 'src', 'bin', u['bin'] + '.rs'))
+    tdir = os.path.join(CACHE, 'tpl_' + u['kani_template'])
+    os.makedirs(tdir, exist_ok=True)
+    env = dict(os.environ, CARGO_NET_OFFLINE='true', CARGO_TARGET_DIR=tdir)
+    t0 = time.time()
+    p = subprocess.run(['cargo', 'build', '--offline', '--quiet', '--features', u['feature'], '--bin', u['bin']], cwd=cdir,
+                       capture_output=True, text=True, env=env, timeout=1800)
+    if p.returncode != 0:
+        return None, 'native build of the template crate failed: ' + p.stderr[-1500:], time.time() - t0, info
+    return os.path.join(tdir, 'debug', u['bin']), '', time.time() - t0, info
+
+
 def build_native(u, work):
+    if u.get('kani_template'):
+        exe, err, t, info = build_native_from_kani_template(u, work)
+        u['_tpl_info'] = info
+        return exe, err, t
     cdir = os.path.join(work, u['name'] + '_crate')
     if os.path.exists(cdir):
         shutil.rmtree(cdir)
@@ -63,7 +90,10 @@ def run_native_unit(u, tier, seed, work):
         out['evidence'] = {'unit': u['name'], 'backend': 'native-bounded'}
         return out
     wall = time.time() - t0
-    out['cmd'] = 'cargo build --offline (path dependency on %s) && %s search %s' % (REPO, os.path.basename(exe), ' '.join(args))
+    out['cmd'] = 'cargo build --offline (%s) && %s search %s' % ('verbatim files of %s, template of unit %s' % (REPO, u['kani_template']) if u.get('kani_template') else 'path dependency on %s' % REPO, os.path.basename(exe), ' '.join(args))
+    if u.get('_tpl_info'):
+        out['functions'] += [dict(f, unit=u['name']) for f in u['_tpl_info']['functions']]
+        out['drops'] += [dict(d, unit=u['name']) for d in u['_tpl_info']['drops']]
     bound = u.get('bound_text', '') + ' [args: %s]' % ' '.join(args)
     checked = []
     for line in p.stdout.split('\n'):
